@@ -802,6 +802,52 @@ def _blk_c17(repo: Path):
     return lines + [''], info
 
 
+# ---- C06 (round 4): the Sobel kernels of edge.py ------------------------------------------------------------------
+def extract_sobel(repo: Path):
+    """`_hsobel_filter = np.array([[..],[..],[..]])/8.` and `_vsobel_filter` of mahotas/edge.py ->
+    (numerators row-major, divisor) each; the border mode string of the two `convolve` calls in `sobel`"""
+    tree = ast.parse((repo / 'mahotas' / 'edge.py').read_text())
+    out = {}
+    for name in ('_hsobel_filter', '_vsobel_filter'):
+        val = _py_assign(tree, name)
+        if not (isinstance(val, ast.BinOp) and isinstance(val.op, ast.Div)):
+            raise TranslationError(f'{name} = np.array([...])/c expected')
+        rows = _np_array_literal(val.left)
+        div = _dec(val.right)
+        if not rows or not isinstance(rows[0], list) or any(q.denominator != 1 for r in rows for q in r) or div.denominator != 1 or div <= 0:
+            raise TranslationError(f'{name}: 2-D integer literal over a positive integer expected')
+        out[name] = ([len(rows), len(rows[0])], [int(q) for r in rows for q in r], int(div))
+    fn = _func(tree, 'sobel')
+    modes = []
+    for n in ast.walk(fn):
+        if isinstance(n, ast.Call) and getattr(n.func, 'id', '') == 'convolve':
+            kw = {k.arg: k.value for k in n.keywords}
+            if not (len(n.args) == 2 and isinstance(n.args[1], ast.Name) and isinstance(kw.get('mode'), ast.Constant)):
+                raise TranslationError('sobel: convolve(img, <filter>, mode=<literal>) expected')
+            modes.append((n.args[1].id, kw['mode'].value))
+    if sorted(m[0] for m in modes) != ['_hsobel_filter', '_vsobel_filter']:
+        raise TranslationError('sobel: one convolve call per Sobel filter expected')
+    return out, sorted(modes)
+
+
+def generate_edge(repo: Path, outdir: Path) -> dict:
+    """Generated/Edge.lean (its own file: nothing else has to be rebuilt when it changes)"""
+    tabs, modes = extract_sobel(repo)
+    lines = ['/- GENERATED by translator/tables.py (generate_edge) from mahotas/edge.py. Do not edit. -/',
+             'namespace Mahotas.Generated', '']
+    for name, lean in (('_hsobel_filter', 'hsobel'), ('_vsobel_filter', 'vsobel')):
+        shp, num, div = tabs[name]
+        lines += [f'/-- `{name}` of `edge.py`: shape, numerators (row-major) and the divisor -/',
+                  f'def {lean}Shape : List Nat := {lean_list(shp)}',
+                  f'def {lean}Num : List Int := {lean_list(num)}',
+                  f'def {lean}Div : Nat := {div}']
+    lines += ['/-- the `convolve` calls of `edge.sobel`: (filter, border mode) -/',
+              'def sobelCalls : List (String × String) := [' + ', '.join(f'("{a}", "{b}")' for a, b in modes) + ']', '',
+              'end Mahotas.Generated', '']
+    changed = _write_if_changed(outdir / 'Edge.lean', '\n'.join(lines))
+    return dict(edge_changed=changed, sobel_filters=2)
+
+
 # the blocks of Generated/Tables.lean, in file order. Each is extracted on its own: when the construct a block reads no
 # longer has the expected form, that block keeps its last generated text (so that every theorem that does not speak
 # about it is still checked) and the failure is reported under the block's name; harness/core.py decides which
@@ -809,7 +855,7 @@ def _blk_c17(repo: Path):
 TABLE_BLOCKS = [('modes', _blk_modes), ('structuring', _blk_structuring), ('colors', _blk_colors), ('texture', _blk_texture),
                 ('c15', c15_block), ('c17', _blk_c17)]
 FILE_BLOCKS = [('outconv', generate_outconv, 'OutConv.lean'), ('normalise', generate_normalisers, 'Normalise.lean'),
-               ('copyguards', generate_copy_guards, 'CopyGuards.lean')]
+               ('copyguards', generate_copy_guards, 'CopyGuards.lean'), ('edge', generate_edge, 'Edge.lean')]
 
 
 def _stale_block(old: str, name: str):
